@@ -273,7 +273,10 @@ class extract_visitor(NodeVisitor):
 
     def visit_Return(self, node):
         # type: (ast.Return) -> None
-        self.flow.scope.returns.append(node.value)  # type: ignore[attr-defined]
+        # a half-typed file may have a return outside of a function
+        returns = getattr(self.flow.scope, 'returns', None)
+        if returns is not None:
+            returns.append(node.value)
         self.generic_visit(node)
 
     def visit_ListComp(self, node):
